@@ -32,6 +32,11 @@ def file_data_field_len(crc, large, has_meta, meta, data):
 def file_data_octets(mode, crc, large, segctrl, we, ws, src, seq, dst, has_meta, state, meta, offset, data):
     """File Data PDU: fixed header (type = file data, direction = towards receiver, segment metadata flag)
     ++ [state<<6 | len(meta)] ++ meta (iff metadata) ++ FSS offset ++ file data ++ CRC-16 trailer (iff CRC flag)"""
+    return with_crc_trailer(crc, file_data_body(mode, crc, large, segctrl, we, ws, src, seq, dst, has_meta, state, meta, offset, data))
+
+
+def file_data_body(mode, crc, large, segctrl, we, ws, src, seq, dst, has_meta, state, meta, offset, data):
+    """everything in front of the CRC trailer"""
     segmeta = 0
     if has_meta:
         segmeta = 1
@@ -40,7 +45,7 @@ def file_data_octets(mode, crc, large, segctrl, we, ws, src, seq, dst, has_meta,
             + seg_metadata_octets(has_meta, state, meta)
             + fss(large, offset)
             + data)
-    return with_crc_trailer(crc, body)
+    return body
 
 
 def max_file_seg_len(we, ws, crc, large, has_meta, meta, max_packet_len):
